@@ -1037,23 +1037,6 @@ private:
             send_response(client, std::move(fields), false);
         };
 
-        if (!request.payload_header_present) {
-            auto error = make_error("ERR_STORE_PAYLOAD_REQUIRED",
-                                    "STORE requires a streamed payload",
-                                    "Upgrade the CLI and retry the command");
-            respond_error(std::move(error), "payload_missing");
-            return;
-        }
-
-        const auto stream_limit = max_control_stream_bytes();
-        if (request.payload.size() > stream_limit) {
-            auto error = make_error("ERR_STORE_PAYLOAD_TOO_LARGE",
-                                    "Payload exceeds server allowance",
-                                    "Lower the payload size or adjust --max-store-bytes");
-            respond_error(std::move(error), "payload_too_large");
-            return;
-        }
-
         std::chrono::seconds default_ttl{};
         std::chrono::seconds min_ttl{};
         std::chrono::seconds max_ttl{};
@@ -1089,6 +1072,23 @@ private:
             rate_identity = hashed_token_identity(token_it->second);
         } else if (token_it != request.fields.end()) {
             rate_identity = hashed_token_identity(token_it->second);
+        }
+
+        if (!request.payload_header_present) {
+            auto error = make_error("ERR_STORE_PAYLOAD_REQUIRED",
+                                    "STORE requires a streamed payload",
+                                    "Upgrade the CLI and retry the command");
+            respond_error(std::move(error), "payload_missing");
+            return;
+        }
+
+        const auto stream_limit = max_control_stream_bytes();
+        if (request.payload.size() > stream_limit) {
+            auto error = make_error("ERR_STORE_PAYLOAD_TOO_LARGE",
+                                    "Payload exceeds server allowance",
+                                    "Lower the payload size or adjust --max-store-bytes");
+            respond_error(std::move(error), "payload_too_large");
+            return;
         }
 
         std::chrono::seconds ttl = default_ttl;
